@@ -29,7 +29,10 @@ func c19Classify(d string) string {
 // emitter encodes, which width guards or duplicate labels it refuses and how it resolves labels (other
 // properties) cannot raise an alarm here -- only behaviour that depends on the room left can.
 func c19History(v asmVariant, capacity int, ops []asmOp, window, viaClone bool) string {
-	const roomy = 224 // the longest history of the alphabet emits 5 x 33 bytes
+	roomy := 224 // the longest short history of the alphabet emits 5 x 33 bytes
+	if len(ops) > 8 {
+		roomy = 16384 // the long programs
+	}
 	dry := capacity < 0
 	var b *asm.Emitter
 	var g *asmGuard
@@ -129,7 +132,11 @@ func c19History(v asmVariant, capacity int, ops []asmOp, window, viaClone bool) 
 // is Appended back: PC, tracked flags and label addresses at the end must be those of an emitter with a
 // buffer that received the calls directly.
 func c19DryClone(v asmVariant, ops []asmOp, split int) string {
-	t := newRealEmitter(v, 224)
+	room := 224
+	if len(ops) > 8 {
+		room = 16384
+	}
+	t := newRealEmitter(v, room)
 	b := newRealEmitter(v, -1)
 	for _, op := range ops {
 		applyReal(t, op)
@@ -156,10 +163,67 @@ func c19DryClone(v asmVariant, ops []asmOp, split int) string {
 	return ""
 }
 
+// c19AppendBounded: the head of the history goes into an emitter with a buffer of the given capacity, the
+// tail into a Clone with a buffer of its own, which is then Appended. An Append that does not fit is refused
+// as a whole (the parent as it was); one that fits gives what direct emission gives.
+func c19AppendBounded(v asmVariant, capacity int, ops []asmOp, split int) string {
+	room := 224
+	if len(ops) > 8 {
+		room = 16384
+	}
+	for _, op := range ops {
+		if strings.HasPrefix(op.name, "SetBase(") {
+			return "" // a base set inside a clone is outside what Clone/Append promise (base set before the first emission)
+		}
+	}
+	b := newRealEmitter(v, capacity)
+	t := newRealEmitter(v, room)
+	for _, op := range ops[:split] {
+		tp := applyReal(t, op)
+		if bp := applyReal(b, op); (bp != nil) != (tp != nil) {
+			return "" // a head call does not fit: that case belongs to the plain histories
+		}
+	}
+	c := b.Clone(make([]byte, room))
+	for _, op := range ops[split:] {
+		applyReal(t, op)
+		applyReal(c, op)
+	}
+	before := observe(b, asmLabelNames)
+	var pn interface{}
+	func() {
+		defer func() { pn = recover() }()
+		b.Append(c)
+	}()
+	after := observe(b, asmLabelNames)
+	if before.n+c.Len() <= capacity {
+		if pn != nil {
+			return fmt.Sprintf("Append of %d bytes with Len=%d Cap=%d: it fits but was refused (%v)", c.Len(), before.n, capacity, pn)
+		}
+		if want := observe(t, asmLabelNames); !after.equal(want) {
+			return fmt.Sprintf("after an Append that fits (split %d): %v, direct emission gives %v", split, after, want)
+		}
+		return ""
+	}
+	if pn == nil {
+		return fmt.Sprintf("Append of %d bytes with Len=%d Cap=%d was accepted; now %v", c.Len(), before.n, capacity, after)
+	}
+	if !after.equal(before) {
+		return fmt.Sprintf("Append of %d bytes with Len=%d Cap=%d was refused (%v) but changed the emitter: before %v after %v", c.Len(), before.n, capacity, pn, before, after)
+	}
+	return ""
+}
+
 func c19Run(h asmHistory) (sig, what string) {
 	ops, err := opsByName(h.Ops)
 	if err != nil {
 		return "bad-case", err.Error()
+	}
+	if h.Window && h.ViaClone { // marker of an Append-into-bounded-parent case
+		if d := c19AppendBounded(h.Variant, h.Capacity, ops, h.Split); d != "" {
+			return c19Classify(d), fmt.Sprintf("%+v capacity %d split %d %v: %s", h.Variant, h.Capacity, h.Split, h.Ops, d)
+		}
+		return "", ""
 	}
 	if h.Capacity < 0 {
 		for split := 0; split <= len(ops); split++ {
@@ -216,6 +280,17 @@ func runC19(r *report.Run) {
 				return c19Classify(d), fmt.Sprintf("%+v %v: %s", v, historyNames(al, idx), d), n, &asmHistory{Variant: v, Ops: historyNames(al, idx), Capacity: -1}
 			}
 		}
+		for capacity := size - 2; capacity <= size; capacity++ {
+			if capacity < 0 || v != variants[0] {
+				continue
+			}
+			for split := 0; split <= len(ops); split++ {
+				n++
+				if d := c19AppendBounded(v, capacity, ops, split); d != "" {
+					return c19Classify(d), fmt.Sprintf("%+v capacity %d split %d %v: %s", v, capacity, split, historyNames(al, idx), d), n, &asmHistory{Variant: v, Ops: historyNames(al, idx), Capacity: capacity, Split: split, Window: true, ViaClone: true}
+				}
+			}
+		}
 		for capacity := -1; capacity <= size+1; capacity++ {
 			// shapes: the target as a whole array (len == cap), as a window of a larger one (len < cap), and
 			// the emitter under test being a Clone over the target
@@ -236,6 +311,45 @@ func runC19(r *report.Run) {
 	midBase, _ := asmDynamicOp("SetBase($7e2000)")
 	hist, trans, st := asmHistorySearch(depth, variants, visit, r, 0, midBase)
 	capCases = st
+	// long programs: capacities around a few instruction boundaries spread over the program, every shape
+	for _, v := range variants {
+		for salt, n := range []int{120, 300} {
+			ops := asmLongProgram(n, salt)
+			re := newRealEmitter(v, 16384)
+			var marks []int
+			for i, op := range ops {
+				applyReal(re, op)
+				if i == n/4 || i == n/2 || i == n-2 || i == n-1 {
+					marks = append(marks, re.Len())
+				}
+			}
+			caps := []int{-1, 0}
+			for _, m := range marks {
+				for d := -3; d <= 1; d++ {
+					if m+d >= 0 {
+						caps = append(caps, m+d)
+					}
+				}
+			}
+			for _, capacity := range caps {
+				for shape := 0; shape < 3; shape++ {
+					if shape > 0 && capacity < 0 {
+						continue
+					}
+					capCases++
+					if d := c19History(v, capacity, ops, shape == 1, shape == 2); d != "" {
+						r.ViolationSized(c19Classify(d), fmt.Sprintf("%+v long program (%d calls, salt %d) capacity %d shape %d: %s", v, n, salt, capacity, shape, d), asmHistory{Variant: v, Ops: opNames(ops), Capacity: capacity, Window: shape == 1, ViaClone: shape == 2}, n)
+					}
+				}
+			}
+			for _, split := range []int{0, n / 2, n} {
+				capCases++
+				if d := c19DryClone(v, ops, split); d != "" {
+					r.ViolationSized(c19Classify(d), fmt.Sprintf("%+v long program (%d calls): %s", v, n, d), asmHistory{Variant: v, Ops: opNames(ops), Capacity: -1}, n)
+				}
+			}
+		}
+	}
 	if thorough {
 		// all ten constructor variants one level shallower (the deep pass above runs on one of them:
 		// depth 5 on all ten is 2.7*10^9 (history, capacity) cases, well over an hour on 16 cores)
@@ -250,7 +364,7 @@ func runC19(r *report.Run) {
 	r.Set("histories", hist)
 	r.Set("history_x_capacity_cases", capCases)
 	r.Set("bounds", map[string]interface{}{"history_depth": depth, "alphabet": len(asmAlphabet()) + 1, "constructor_variants": len(variants), "thorough_second_pass": "all 10 constructor variants at depth 4", "capacities": "every capacity from 0 to program size + 1, each as a whole array (len == cap), as a window of a larger canary-filled array (len < cap) and with the emitter under test being a Clone over the target, plus the nil-target (dry-run) emitter"})
-	r.Set("rule", "every call sequence up to the depth x every buffer capacity from 0 to the program's size + 1 and the nil-target emitter: each call runs on a fresh real Emitter and on a twin real Emitter with ample room that receives exactly the accepted calls (the twin tells how many bytes a call needs; nothing is predicted from a model), the target buffer given once as a whole array and once as a window of a larger array whose bytes outside the window must stay untouched; a call that does not fit must panic and leave Bytes/Len/PC/Flags/labels unchanged, the history continues after a refusal, a call that fits must leave the emitter exactly like the twin, Finalize after the history must agree with the twin's, and the nil-target emitter must report the same PC, labels and flags after every call, also when the tail of the history (every split) goes through Clone(nil) and Append; non-trivial = capacity below the program size or nil target (at least one call differs from the roomy run)")
+	r.Set("rule", "every call sequence up to the depth x every buffer capacity from 0 to the program's size + 1 and the nil-target emitter: each call runs on a fresh real Emitter and on a twin real Emitter with ample room that receives exactly the accepted calls (the twin tells how many bytes a call needs; nothing is predicted from a model), the target buffer given once as a whole array and once as a window of a larger array whose bytes outside the window must stay untouched; a call that does not fit must panic and leave Bytes/Len/PC/Flags/labels unchanged, the history continues after a refusal, a call that fits must leave the emitter exactly like the twin, Finalize after the history must agree with the twin's, and an Append of a clone (own buffer) into a parent that is 0-2 bytes short must be refused leaving the parent as it was; the nil-target emitter must report the same PC, labels and flags after every call, also when the tail of the history (every split) goes through Clone(nil) and Append; non-trivial = capacity below the program size or nil target (at least one call differs from the roomy run)")
 	r.Sample(asmHistory{Variant: variants[0], Ops: []string{"LDA_abs($1234)", "JSL($123456)", "NOP"}, Capacity: 5})
 	r.Sample(asmHistory{Variant: variants[1], Ops: []string{"SEP(#$20)", "LDA_imm8_b($7F)", "EmitBytes(17)"}, Capacity: -1})
 	r.Assume("listing lines are not part of the property's list and are not compared here")
